@@ -1,6 +1,6 @@
 CONSTANTS
   RuleAlphabet = {"^", "$", "a", "."}
-  HostAlphabet = {"a", "b", "."}
+  HostAlphabet = {"a", ".", "A", " "}
   MaxRule = 2
   MaxHost = 3
   Mode = "policy"
@@ -9,6 +9,8 @@ CONSTANTS
   CacheKey = "none"
   HistRule = 1
   HistLen = 2
+  AllowedAlphabet <- PlainAlphabet
+  PollAlphabet <- CaseBlankAlphabet
 INIT PInit
 NEXT PStutter
 INVARIANT PEmit
